@@ -45,7 +45,7 @@ ASSUMPTIONS = {"C08": [
 EXPECTED_PROBES = {"C08": ["probe:all_recorded_trials_failed_no_tree", "pool:out_of_order", "fault:trial_exception", "fault:trial_badtrial", "probe:cancelled_inflight",
                            "probe:second_search", "probe:postproc", "probe:reference_compared", "fault:clock_jump",
                            "probe:early_stop", "pool:mode:process", "pool:mode:thread", "fault:trial_objective",
-                           "fault:poll_lag_batched_completions", "probe:simultaneous_completions", "probe:compressed_search", "probe:preemptive_task_switches", "pool:mode:thread-preemptive", "probe:on_trial_error_raise"]}
+                           "fault:poll_lag_batched_completions", "probe:simultaneous_completions", "probe:compressed_search", "probe:preemptive_task_switches", "pool:mode:thread-preemptive", "probe:on_trial_error_raise", "probe:second_instance_other_contraction", "fault:trial_exception-unpicklable"]}
 
 
 def violation_class(v):
@@ -60,6 +60,14 @@ _STATE = {"fault_seed": 0, "rate": 0.0, "obj_rate": 0.0, "kinds": ("exception",)
 _REAL = {"sim-greedy-compressed": "greedy-compressed", "sim-greedy-span": "greedy-span", "sim-greedy": "greedy", "sim-random-greedy": "random-greedy", "sim-labels": "labels",
          "sim-kahypar": "kahypar", "sim-random": "random", "sim-labels-agglom": "labels-agglom",
          "sim-kahypar-agglom": "kahypar-agglom"}
+
+
+class SolverError(Exception):
+    """A third-party style exception that does not survive a pickle round trip (two required arguments)."""
+
+    def __init__(self, code, msg):
+        super().__init__(f"[{code}] {msg}")
+        self.code = code
 
 
 def setting_digest(method, kwargs):
@@ -84,6 +92,8 @@ def _make_wrapper(simname, realname):
         _STATE["trace"].append((d, fault))
         if fault == "exception":
             raise ValueError(f"injected trial fault {d}")
+        if fault == "exception-unpicklable":
+            raise SolverError(7, f"injected trial fault {d}")
         if fault == "badtrial":
             raise BadTrial(f"injected bad trial {d}")
         prng.reseed_globals(d)
@@ -251,10 +261,13 @@ def gen_case(prop, seed, tier):
         "max_training_steps": sw.choice([None, None, 3]),
         "pool": pool,
         "fault": {"seed": sw.randrange(2 ** 31), "rate": fault_rate,
-                  "kinds": sw.choice([["exception"], ["badtrial"], ["exception", "badtrial"]])},
+                  "kinds": sw.choice([["exception"], ["badtrial"], ["exception", "badtrial"], ["exception-unpicklable"],
+                                      ["exception", "exception-unpicklable", "badtrial"]])},
         "tick": sw.choice([0.0, 0.001, 0.05]),
         "clock_jumps": [[sw.randint(1, 40), sw.choice([-30.0, -1.0, 2.0, 100.0])] for _ in range(sw.choice([0, 0, 1, 2]))],
         "searches": sw.choice([1, 1, 2]),
+        # afterwards a SECOND optimizer object (same configuration, same pool) searches a different contraction
+        "second_instance": sw.random() < 0.25 and not compressed,
         "compressed": compressed,
     }
     if case["pool"] is not None and case["pool"]["mode"] == "thread-preemptive":
@@ -434,6 +447,24 @@ def _run_once(ctg, case, use_pool, use_faults, log, counters, faults, with_clock
                 after_search(opt, pool, s, res)
             if res["raised"] is not None:
                 break
+        if case.get("second_instance") and use_faults:
+            # a second optimizer object (same configuration, same pool) asks about ANOTHER contraction
+            inputs2 = tuple(reversed(inputs))
+            output2 = tuple(reversed(output))
+            sec = {"raised": None, "tree": None}
+            try:
+                opt2 = _mk_opt(ctg, case, pool, use_faults)
+                n0 = len(_STATE["trace"])
+                with warnings.catch_warnings():
+                    warnings.simplefilter("ignore")
+                    sec["tree"] = opt2.search(inputs2, output2, size_dict)
+                sec["scores"] = list(opt2.scores)
+                sec["best_score"] = opt2.best.get("score")
+            except Exception as e:
+                sec["raised"] = e
+                sec["injected_all"] = all(t[1] is not None for t in _STATE["trace"][n0:]) if "n0" in dir() else False
+            sec["inputs"], sec["output"] = inputs2, output2
+            holder["second"] = sec
 
     if sched is None:
         body()
@@ -442,7 +473,7 @@ def _run_once(ctg, case, use_pool, use_faults, log, counters, faults, with_clock
         if errs and errs[0] is not None:
             raise errs[0]
         counters["probe:preemptive_task_switches"] += sched.switches
-    return {"opt": holder["opt"], "pool": pool, "results": results, "clk": clk}
+    return {"opt": holder["opt"], "pool": pool, "results": results, "clk": clk, "second": holder.get("second")}
 
 
 def _stats_of(tree):
@@ -601,6 +632,24 @@ def run_case(prop, case):
     sim = _run_once(ctg, case, True, True, log, counters, faults, True, after_search=after_search)
     opt, pool = sim["opt"], sim["pool"]
     total_trials = tot[0]
+
+    sec = sim.get("second")
+    if sec is not None and not violations:
+        counters["probe:second_instance_other_contraction"] += 1
+        if sec["raised"] is None:
+            t2 = sec["tree"]
+            if tuple(map(tuple, t2.inputs)) != sec["inputs"] or tuple(t2.output) != sec["output"]:
+                V("tree-of-other-contraction", "a second optimizer object (same configuration and pool) was asked about another contraction and "
+                  f"returned a tree whose inputs/output are not the queried ones (N={t2.N} vs {len(sec['inputs'])} tensors queried)", second_instance=True)
+            elif not t2.is_complete():
+                V("tree-incomplete", "second optimizer object returned an incomplete tree", second_instance=True)
+            elif sec["scores"] and sec["best_score"] != min(sec["scores"]):
+                V("best-not-minimum", f"second optimizer object: best {sec['best_score']} != min(scores) {min(sec['scores'])}", second_instance=True)
+        elif isinstance(sec["raised"], KeyError) and sec["raised"].args == ("tree",):
+            counters["probe:second_instance_no_tree"] += 1
+        elif case["on_trial_error"] != "raise":
+            V("search-raised", f"second optimizer object raised {type(sec['raised']).__name__}: {sec['raised']}", second_instance=True,
+              error=type(sec["raised"]).__name__)
 
     if pool is not None:
         counters["pool:mode:" + pool.mode] += 1
